@@ -8,7 +8,8 @@
 (*   Accept  = acquire (select: a free slot, or done) ; inner Accept ; on error release;   *)
 (*             when acquire failed because of done: call the inner Accept until it fails,  *)
 (*             closing every connection it still hands out ("drain", golang/go#50216);     *)
-(*   Conn.Close = inner close ; release exactly once (sync.Once);                          *)
+(*   Conn.Close = inner close (may overlap with other Close calls on the same connection)  *)
+(*                ; release exactly once (sync.Once) ; return;                             *)
 (*   Listener.Close = inner close ; close(done) once.                                      *)
 (* Every Go statement that touches shared state is one atomic step here; each call is a    *)
 (* process (one id per call), so arbitrary interleavings of concurrent Accept, Conn.Close  *)
@@ -34,6 +35,7 @@ CONSTANTS
     Conns,        \* ids of inner connections, 1..m (dialed in increasing order)
     Closers,      \* ids of Listener.Close calls
     MaxCloses,    \* Close calls per accepted connection (model checking bound)
+    MaxTotal,     \* Close calls on all connections together (model checking bound)
     MaxErrs,      \* injected transient inner Accept errors (model checking bound)
     Spurious      \* inner listener hands out queued connections even after its Close
 
@@ -48,19 +50,23 @@ VARIABLES
     apc,          \* Accept call a: "idle" | "acq" | "inner" | "drain" | "retok" | "reterr" | "fin"
     ares,         \* connection returned by Accept call a (0 = none)
     cst,          \* connection c: "new" | "queued" | "open" | "closed" | "drained" | "lost"
-    ncl,          \* Close calls made on connection c
+    ncl,          \* Close calls started on connection c
+    cgate,        \* Close calls on c that are inside the underlying Conn.Close (may overlap)
+    cpost,        \* Close calls on c whose underlying Close returned, before releaseOnce.Do
+    cdone,        \* Close calls on c that finished and whose return was not yet observed
     nrel,         \* releases performed on behalf of connection c
     lpc,          \* Listener.Close call k: "idle" | "s2" | "fin"
     nerr,         \* transient errors injected so far
     late          \* ghost: Accept call a started after some Listener.Close had returned
 
-vars == <<cap, spur, sem, done, iclosed, queue, apc, ares, cst, ncl, nrel, lpc, nerr, late>>
+vars == <<cap, spur, sem, done, iclosed, queue, apc, ares, cst, ncl, cgate, cpost, cdone, nrel, lpc, nerr, late>>
 
 InitWith(n, sp) ==
     /\ cap = n /\ spur = sp
     /\ sem = 0 /\ done = FALSE /\ iclosed = FALSE /\ queue = <<>>
     /\ apc = [a \in Acceptors |-> "idle"] /\ ares = [a \in Acceptors |-> 0]
     /\ cst = [c \in Conns |-> "new"] /\ ncl = [c \in Conns |-> 0] /\ nrel = [c \in Conns |-> 0]
+    /\ cgate = [c \in Conns |-> 0] /\ cpost = [c \in Conns |-> 0] /\ cdone = [c \in Conns |-> 0]
     /\ lpc = [k \in Closers |-> "idle"] /\ nerr = 0
     /\ late = [a \in Acceptors |-> FALSE]
 
@@ -73,31 +79,53 @@ Call(a) ==
     /\ apc[a] = "idle"
     /\ apc' = [apc EXCEPT ![a] = "acq"]
     /\ late' = [late EXCEPT ![a] = \E k \in Closers : lpc[k] = "fin"]
-    /\ UNCHANGED <<cap, spur, sem, done, iclosed, queue, ares, cst, ncl, nrel, lpc, nerr>>
+    /\ UNCHANGED <<cap, spur, sem, done, iclosed, queue, ares, cst, ncl, cgate, cpost, cdone, nrel, lpc, nerr>>
 
 \* a client connects; a closed listener refuses (the connection is never queued)
 Dial(c) ==
     /\ cst[c] = "new"
     /\ IF iclosed THEN cst' = [cst EXCEPT ![c] = "lost"] /\ UNCHANGED queue
        ELSE cst' = [cst EXCEPT ![c] = "queued"] /\ queue' = Append(queue, c)
-    /\ UNCHANGED <<cap, spur, sem, done, iclosed, apc, ares, ncl, nrel, lpc, nerr, late>>
+    /\ UNCHANGED <<cap, spur, sem, done, iclosed, apc, ares, ncl, cgate, cpost, cdone, nrel, lpc, nerr, late>>
 
 \* the next inner Accept fails with a transient error (EMFILE, ECONNABORTED ...)
 IErr ==
     /\ ~iclosed
     /\ queue' = Append(queue, 0) /\ nerr' = nerr + 1
-    /\ UNCHANGED <<cap, spur, sem, done, iclosed, apc, ares, cst, ncl, nrel, lpc, late>>
+    /\ UNCHANGED <<cap, spur, sem, done, iclosed, apc, ares, cst, ncl, cgate, cpost, cdone, nrel, lpc, late>>
 
-\* limitListenerConn.Close: inner close, then releaseOnce.Do(release); release is <-sem.
-\* It cannot block: the connection holds a slot until its first Close.
-ConnClose(c) ==
+\* limitListenerConn.Close is   err := l.Conn.Close(); l.releaseOnce.Do(l.release); return err
+\* Each Close call is a process; calls on the same connection are interchangeable, so they are
+\* counted per phase.  Several calls may be inside the underlying Conn.Close at the same time
+\* (it can take arbitrarily long: the environment decides when each one returns).
+CStart(c) ==                                 \* a caller enters Close and the underlying Conn.Close
     /\ cst[c] \in {"open", "closed"}
     /\ ncl' = [ncl EXCEPT ![c] = @ + 1]
-    /\ cst' = [cst EXCEPT ![c] = "closed"]
+    /\ cgate' = [cgate EXCEPT ![c] = @ + 1]
+    /\ UNCHANGED <<cap, spur, sem, done, iclosed, queue, apc, ares, cst, cpost, cdone, nrel, lpc, nerr, late>>
+
+CGo(c) ==                                    \* environment: one underlying Conn.Close returns
+    /\ cgate[c] > 0
+    /\ cgate' = [cgate EXCEPT ![c] = @ - 1]
+    /\ cpost' = [cpost EXCEPT ![c] = @ + 1]
+    /\ UNCHANGED <<cap, spur, sem, done, iclosed, queue, apc, ares, cst, ncl, cdone, nrel, lpc, nerr, late>>
+
+\* releaseOnce.Do(release): an atomic test-and-set; the first caller releases (<-sem cannot
+\* block: the connection holds a slot until then), every caller then returns
+CRel(c) ==
+    /\ cpost[c] > 0
+    /\ cpost' = [cpost EXCEPT ![c] = @ - 1]
+    /\ cdone' = [cdone EXCEPT ![c] = @ + 1]
     /\ IF nrel[c] = 0
-       THEN sem > 0 /\ sem' = sem - 1 /\ nrel' = [nrel EXCEPT ![c] = 1]
-       ELSE UNCHANGED <<sem, nrel>>
-    /\ UNCHANGED <<cap, spur, done, iclosed, queue, apc, ares, lpc, nerr, late>>
+       THEN /\ sem > 0 /\ sem' = sem - 1 /\ nrel' = [nrel EXCEPT ![c] = 1]
+            /\ cst' = [cst EXCEPT ![c] = "closed"]
+       ELSE UNCHANGED <<sem, nrel, cst>>
+    /\ UNCHANGED <<cap, spur, done, iclosed, queue, apc, ares, ncl, cgate, lpc, nerr, late>>
+
+CRet(c) ==                                   \* the caller observes the return of Close
+    /\ cdone[c] > 0
+    /\ cdone' = [cdone EXCEPT ![c] = @ - 1]
+    /\ UNCHANGED <<cap, spur, sem, done, iclosed, queue, apc, ares, cst, ncl, cgate, cpost, nrel, lpc, nerr, late>>
 
 \* limitListener.Close, first statement: l.Listener.Close()
 LClose1(k) ==
@@ -107,7 +135,7 @@ LClose1(k) ==
     /\ IF spur \/ iclosed THEN UNCHANGED <<queue, cst>>
        ELSE /\ queue' = <<>>                  \* a well-behaved listener drops its backlog
             /\ cst' = [c \in Conns |-> IF cst[c] = "queued" THEN "lost" ELSE cst[c]]
-    /\ UNCHANGED <<cap, spur, sem, done, apc, ares, ncl, nrel, nerr, late>>
+    /\ UNCHANGED <<cap, spur, sem, done, apc, ares, ncl, cgate, cpost, cdone, nrel, nerr, late>>
 
 ---------------------------------------------------------------------------
 (* internal steps *)
@@ -117,19 +145,19 @@ LClose2(k) ==
     /\ lpc[k] = "s2"
     /\ lpc' = [lpc EXCEPT ![k] = "fin"]
     /\ done' = TRUE
-    /\ UNCHANGED <<cap, spur, sem, iclosed, queue, apc, ares, cst, ncl, nrel, nerr, late>>
+    /\ UNCHANGED <<cap, spur, sem, iclosed, queue, apc, ares, cst, ncl, cgate, cpost, cdone, nrel, nerr, late>>
 
 \* acquire: select { case <-done: false; case sem <- struct{}{}: true } - when both are ready
 \* Go chooses either
 AcqSlot(a) ==
     /\ apc[a] = "acq" /\ sem < cap
     /\ sem' = sem + 1 /\ apc' = [apc EXCEPT ![a] = "inner"]
-    /\ UNCHANGED <<cap, spur, done, iclosed, queue, ares, cst, ncl, nrel, lpc, nerr, late>>
+    /\ UNCHANGED <<cap, spur, done, iclosed, queue, ares, cst, ncl, cgate, cpost, cdone, nrel, lpc, nerr, late>>
 
 AcqDone(a) ==
     /\ apc[a] = "acq" /\ done
     /\ apc' = [apc EXCEPT ![a] = "drain"]
-    /\ UNCHANGED <<cap, spur, sem, done, iclosed, queue, ares, cst, ncl, nrel, lpc, nerr, late>>
+    /\ UNCHANGED <<cap, spur, sem, done, iclosed, queue, ares, cst, ncl, cgate, cpost, cdone, nrel, lpc, nerr, late>>
 
 \* what the inner Accept does right now: "block", "closed" (permanent error) or "pop"
 InnerNow == IF iclosed /\ (~spur \/ queue = <<>>) THEN "closed"
@@ -143,7 +171,7 @@ InnerConn(a) ==
        /\ cst' = [cst EXCEPT ![c] = "open"]
        /\ ares' = [ares EXCEPT ![a] = c]
        /\ apc' = [apc EXCEPT ![a] = "retok"]
-    /\ UNCHANGED <<cap, spur, sem, done, iclosed, ncl, nrel, lpc, nerr, late>>
+    /\ UNCHANGED <<cap, spur, sem, done, iclosed, ncl, cgate, cpost, cdone, nrel, lpc, nerr, late>>
 
 \* ... or an error (listener closed, or a transient one) -> release the slot, return the error
 InnerErr(a) ==
@@ -152,14 +180,14 @@ InnerErr(a) ==
        \/ InnerNow = "pop" /\ Head(queue) = 0 /\ queue' = Tail(queue)
     /\ sem > 0 /\ sem' = sem - 1
     /\ apc' = [apc EXCEPT ![a] = "reterr"]
-    /\ UNCHANGED <<cap, spur, done, iclosed, ares, cst, ncl, nrel, lpc, nerr, late>>
+    /\ UNCHANGED <<cap, spur, done, iclosed, ares, cst, ncl, cgate, cpost, cdone, nrel, lpc, nerr, late>>
 
 \* Accept without a slot (listener closed): close whatever the inner Accept still returns ...
 DrainConn(a) ==
     /\ apc[a] = "drain" /\ InnerNow = "pop" /\ Head(queue) # 0
     /\ cst' = [cst EXCEPT ![Head(queue)] = "drained"]
     /\ queue' = Tail(queue)
-    /\ UNCHANGED <<cap, spur, sem, done, iclosed, apc, ares, ncl, nrel, lpc, nerr, late>>
+    /\ UNCHANGED <<cap, spur, sem, done, iclosed, apc, ares, ncl, cgate, cpost, cdone, nrel, lpc, nerr, late>>
 
 \* ... until it returns an error, which is returned
 DrainErr(a) ==
@@ -167,16 +195,17 @@ DrainErr(a) ==
     /\ \/ InnerNow = "closed" /\ UNCHANGED queue
        \/ InnerNow = "pop" /\ Head(queue) = 0 /\ queue' = Tail(queue)
     /\ apc' = [apc EXCEPT ![a] = "reterr"]
-    /\ UNCHANGED <<cap, spur, sem, done, iclosed, ares, cst, ncl, nrel, lpc, nerr, late>>
+    /\ UNCHANGED <<cap, spur, sem, done, iclosed, ares, cst, ncl, cgate, cpost, cdone, nrel, lpc, nerr, late>>
 
 \* the caller observes the return of Accept
 Ret(a) ==
     /\ apc[a] \in {"retok", "reterr"}
     /\ apc' = [apc EXCEPT ![a] = "fin"]
-    /\ UNCHANGED <<cap, spur, sem, done, iclosed, queue, ares, cst, ncl, nrel, lpc, nerr, late>>
+    /\ UNCHANGED <<cap, spur, sem, done, iclosed, queue, ares, cst, ncl, cgate, cpost, cdone, nrel, lpc, nerr, late>>
 
 Internal ==
     \/ \E k \in Closers : LClose2(k)
+    \/ \E c \in Conns : CRel(c)
     \/ \E a \in Acceptors : AcqSlot(a) \/ AcqDone(a) \/ InnerConn(a) \/ InnerErr(a)
                               \/ DrainConn(a) \/ DrainErr(a)
 
@@ -185,13 +214,18 @@ Quiescent == ~ENABLED Internal
 ---------------------------------------------------------------------------
 (* model checking: callers use ids in increasing order (symmetry), bounded closes *)
 
+RECURSIVE SumOver(_, _)
+SumOver(f, S) == IF S = {} THEN 0 ELSE LET x == CHOOSE y \in S : TRUE IN f[x] + SumOver(f, S \ {x})
+TotalCloses == SumOver(ncl, Conns)
+
 InOrder(S, x, f, init) == \A y \in S : y < x => f[y] # init
 
 Next ==
     \/ \E a \in Acceptors : InOrder(Acceptors, a, apc, "idle") /\ Call(a)
     \/ \E c \in Conns : InOrder(Conns, c, cst, "new") /\ Dial(c)
     \/ nerr < MaxErrs /\ IErr
-    \/ \E c \in Conns : ncl[c] < MaxCloses /\ ConnClose(c)
+    \/ \E c \in Conns : ncl[c] < MaxCloses /\ TotalCloses < MaxTotal /\ CStart(c)
+    \/ \E c \in Conns : CGo(c)             \* (CRet only matters to trace validation: cdone just counts)
     \/ \E k \in Closers : InOrder(Closers, k, lpc, "idle") /\ LClose1(k)
     \/ Internal
     \/ \E a \in Acceptors : Ret(a)
@@ -219,6 +253,8 @@ OneSlotEach ==
     /\ \A c \in Conns : /\ nrel[c] <= 1
                         /\ cst[c] = "closed" => nrel[c] = 1
                         /\ cst[c] = "open" => nrel[c] = 0
+                        \* once any Close call on c got past releaseOnce.Do, the slot is free
+                        /\ (cdone[c] > 0 \/ ncl[c] > cgate[c] + cpost[c] + cdone[c]) => nrel[c] = 1
     /\ \A c \in Conns : cst[c] = "open" => Cardinality({a \in Acceptors : ares[a] = c}) = 1
 
 \* clause 3a: an Accept that starts after a Listener.Close returned never yields a connection
